@@ -9,7 +9,7 @@ DESCRIPTION = {
              "autoPingRestartOnAnyTraffic, a fractional start offset of the virtual clock (the batched timers quantise to whole seconds) and, per timer, the placement "
              "of the peer's reaction on a discretised time line: never, deadline-1-d, deadline-d, deadline, deadline+d.  Scenarios: opening handshake, closing handshake "
              "initiated locally, TCP drop after a closing handshake (client, initiator and replier), auto-ping rounds answered by pong or by data, auto-ping during a closing "
-             "handshake, and running the clock far past onClose.  Oracle: silent peer => transport dropped at a virtual time <= arm time + timeout and onClose(False,1006,reason) "
+             "handshake, a ping outstanding when the application starts closing (answered in time by pong or data, close reply after the ping deadline), and running the clock far past onClose.  Oracle: silent peer => transport dropped at a virtual time <= arm time + timeout and onClose(False,1006,reason) "
              "whose text names the expired timer; peer with >=1s to spare => never dropped by that timer, connection open / closed cleanly; while pongs arrive at r with >=1s to "
              "spare the next ping is written within (r+interval-1, r+interval]; after onClose nothing happens.  Non-trivial = a reaction within 1s of a deadline or two timers "
              "pending at once; distinct by (scenario, config, placements)."),
@@ -395,7 +395,46 @@ def sc_ping_while_closing(c):
     return "ping-while-closing/client/" + c["initiator"]
 
 
-SCENARIOS = {"open": sc_open, "close": sc_close, "ping": sc_ping, "ping-while-closing": sc_ping_while_closing}
+def sc_ping_outstanding_then_close(c):
+    """an auto-ping is outstanding when the application starts the closing handshake; the peer answers the ping in time (pong, or a data frame when
+    any traffic counts) and sends its close reply only after the ping deadline, well within the close timeout: it met every deadline"""
+    I, T = c["ping_iv"], max(2, c["ping_to"])
+    c = dict(c, ping_to=T, close_to=T + 6, drop_to=0)
+    w = World(c)
+    w.handshake()
+    w.advance_to(w.t_open + I + 1e-3)
+    pings = [(t, f) for t, f in w.frames if f.opcode == 9]
+    if len(pings) != 1:
+        raise Violation("C17|ping|pings-stopped" if not pings else "C17|ping|extra-ping", "%d pings by t=%.2f" % (len(pings), w.d.now()), c)
+    tp, fp = pings[0]
+    w.advance_to(tp + 0.2)
+    w.d.call(w.proto.sendClose, 1000, "bye")
+    w.d.settle()
+    w.collect()
+    w.advance_to(tp + 0.2 + max(0.0, T - 1.0 - EPS - 0.2) * c["frac"])
+    if c["answer"] == "data" and c["restart"]:
+        w.feed(w.frame(1, b"traffic while closing"))
+    else:
+        w.feed(w.frame(10, fp.payload))
+    w.advance_to(tp + T + 1.5)
+    if w.drop_time is not None:
+        raise Violation("C17|ping-then-close|responsive-peer-dropped", "ping at %.2f answered by %s before its deadline (timeout %.1f) while closing; dropped at %.2f reporting %r" % (
+            tp, "data" if (c["answer"] == "data" and c["restart"]) else "pong", T, w.drop_time, w.closes()), c)
+    w.feed(w.frame(8, struct.pack("!H", 1000)))
+    w.advance_to(w.d.now() + 0.01)
+    if not w.is_server:
+        if w.drop_time is not None:
+            raise Violation("C17|ping-then-close|responsive-peer-dropped", "client dropped at %.2f right after the close reply: %r" % (w.drop_time, w.closes()), c)
+        w.ep.deliver_loss("done")
+        w.d.settle()
+    cl = w.closes()
+    if len(cl) != 1 or cl[0][1] is not True:
+        raise Violation("C17|ping-then-close|clean-close-not-reported", repr(cl), c)
+    w.finish()
+    return "ping-then-close/%s" % ("data" if (c["answer"] == "data" and c["restart"]) else "pong")
+
+
+SCENARIOS = {"open": sc_open, "close": sc_close, "ping": sc_ping, "ping-while-closing": sc_ping_while_closing, "ping-then-close": sc_ping_outstanding_then_close}
 
 
 def strategy():
@@ -405,12 +444,12 @@ def strategy():
 
     @st.composite
     def case(draw):
-        sc = draw(st.sampled_from(["open", "close", "close", "ping", "ping", "ping-while-closing"]))
+        sc = draw(st.sampled_from(["open", "close", "close", "ping", "ping", "ping-while-closing", "ping-then-close"]))
         c = {"sc": sc, "server": draw(st.booleans()), "offset": draw(st.sampled_from([0.0, 0.25, 0.5, 0.75, 0.999, 3.3])),
              "open_to": draw(grid), "close_to": draw(grid), "drop_to": draw(grid), "ping_iv": 0, "ping_to": 0, "restart": draw(st.booleans()),
              "p1": draw(pos), "p2": draw(pos), "idle": draw(st.sampled_from([0.0, 0.4, 1.7])), "rounds": draw(st.integers(1, 4)), "frac": draw(st.sampled_from([0.0, 0.5, 1.0])),
              "answer": draw(st.sampled_from(["pong", "data"])), "initiator": draw(st.sampled_from(["local", "peer"]))}
-        if sc in ("ping", "ping-while-closing") or draw(st.integers(0, 3)) == 0:
+        if sc in ("ping", "ping-while-closing", "ping-then-close") or draw(st.integers(0, 3)) == 0:
             c["ping_iv"] = draw(st.sampled_from([1, 2, 5] if sc != "close" else [5]))
             c["ping_to"] = draw(st.sampled_from(GRID if sc == "ping" else [1, 2, 5]))
             if sc == "ping" and draw(st.integers(0, 6)) == 0:
@@ -421,7 +460,7 @@ def strategy():
             # sub-second timeouts are inside the 1s timer granularity: outside "open" scenarios keep the unrelated timers >= 2s or off
             if c["open_to"] and c["open_to"] < 2:
                 c["open_to"] = 2
-        if sc in ("ping", "ping-while-closing") and c["close_to"] and c["close_to"] < 2:
+        if sc in ("ping", "ping-while-closing", "ping-then-close") and c["close_to"] and c["close_to"] < 2:
             c["close_to"] = 2
         if sc == "close" and c["ping_iv"]:
             c["idle"] = 0.0
